@@ -44,6 +44,13 @@ func init() {
 			"One case in five carries a static query parameter in the base path and/or the path pattern, mostly named like an effective query-located API key (the writer's value is owed to arrive), else 'tenant'. " +
 			"Four cases in ten consult one *http.Request more than once: 'twice' = each probe's copy is handed to a second, freshly built authenticator of the same kind with other required scopes; " +
 			"'shared' = all probes of the case run on ONE request in two rounds and FailedBasicAuth / OAuth2SchemeName / the callback's context value are re-read at the end; every consultation is judged like the first. " +
+			"Four form bodies in ten carry their Content-Type in another valid spelling of the same media type (charset parameter, capitals, a blank before ';', no blank after it, another parameter before the boundary, quoted boundary, capitalised parameter name), " +
+			"either as the operation's consumes entry (urlencoded) or re-spelled by a RoundTripper of the transport: the form token is owed all the same. " +
+			"One API-key writer in twelve (header pool) spells its location oddly on the client side (Header, HEADER, Query, QUERY, hEaDeR, cookie, '', ' header', path): whether client.APIKeyAuth returns a writer at all is observed " +
+			"(none: nothing of the key is owed and a field holding no writer is 'no writer of its own'; a writer for a spelling that is header/query but for letter case: the key is owed there; else not judged) and classed for triage. " +
+			"A few lists hold a writer that returns an error, alone or inside Compose (request refused or built: classed; but a failing DEFAULT writer that is run although the default is owed to stay idle is a violation); " +
+			"PassThroughAuth alternates with a Compose of nothing but nil. Once per worker: every security authenticator handed a params value that is no request (nil, string, int) must not panic, " +
+			"consult its callback or return a principal (http.Request and ScopedAuthRequest by value: no panic only); security.APIKeyAuth[Ctx] with a location that is neither header nor query is driven and classed. " +
 			"non-trivial = a transmitted credential holds >= 1 byte outside [A-Za-z0-9], or >= 2 credentials/placements are present at once; distinct by the whole case",
 		Assumptions: []string{
 			"header-carried tokens have no leading/trailing whitespace and no control bytes (HTTP trims the former, Go's transport and server refuse the latter); empty tokens and empty API keys are not generated",
@@ -52,6 +59,9 @@ func init() {
 			"writers combined in one Compose (or one default/operation list) do not conflict: at most one Authorization writer, key names unique (headers: case-insensitively), no API key named Authorization or access_token",
 			"an operation writer that sets Authorization is owed to win over an Authorization header preset by the parameter writer (its credential must be 'recovered exactly')",
 			"BearerAuth* is always given a *ScopedAuthRequest (as the middleware does); what a scoped authenticator does with a bare *http.Request is not judged",
+			"a form's Content-Type is re-spelled only in ways RFC 7231 3.1.1.1 makes equivalent and net/http parses; a malformed Content-Type is not generated",
+			"an oddly spelled client-side key location (anything but exactly 'header' / 'query') is outside 'API-key (header or query)': that the client returns no writer for it, so that the credential is silently not sent and a transport-wide default takes over, is classed (client-apikey-in/...) and not judged; everything else about such a request is judged as usual",
+			"whether a request is built when one of its effective auth writers returns an error is not judged here (C12: pre-send faults); whether an authenticator handed a non-request reports 'not applicable' or an error is not judged, nor are nil requests",
 			"the error returned next to 'not applicable' is not judged; realm and scheme-name markers are judged only where the code documents them (FailedBasicAuth after a missing or refused basic credential, OAuth2SchemeName after an applicable bearer credential)",
 		},
 		MinNontrivial: 500,
@@ -62,8 +72,8 @@ func init() {
 
 // Cred is one credential writer (or, for Preset, one Authorization header value).
 type Cred struct {
-	Kind  string `json:"kind"`           // basic | bearer | apikey | foreign (preset only)
-	In    string `json:"in,omitempty"`   // apikey: header | query
+	Kind  string `json:"kind"`           // basic | bearer | apikey | foreign (preset only) | failing (a writer that returns an error)
+	In    string `json:"in,omitempty"`   // apikey: header | query as the CLIENT spells it; other spellings (Header, QUERY, cookie, ...) are "odd", see oddIn
 	Name  string `json:"name,omitempty"` // apikey: name as the client spells it
 	User  mon.Q  `json:"user,omitempty"`
 	Pass  mon.Q  `json:"pass,omitempty"`
@@ -85,6 +95,11 @@ type Case struct {
 	FormKind       string `json:"form_kind,omitempty"` // urlencoded | multipart
 	FormTok        mon.Q  `json:"form_tok,omitempty"`
 	JSONBody       bool   `json:"json_body,omitempty"`
+	// CTSpell re-spells the Content-Type of a form body in another VALID way (see ctSpellings): "" = as client.Runtime writes it
+	// for the constant media types. CTVia: "consumes" = the operation's consumes entry is spelled that way (urlencoded only),
+	// "transport" = a RoundTripper of the transport re-spells the header of the built request (what a proxy or another client sends)
+	CTSpell string `json:"ct_spelling,omitempty"`
+	CTVia   string `json:"ct_via,omitempty"`
 
 	RealmMode string   `json:"realm_mode"` // ctor (BasicAuth/BasicAuthCtx) | empty (Realm ctor with "") | named
 	Realm     string   `json:"realm,omitempty"`
@@ -148,7 +163,13 @@ func rep(c *Case) *Case {
 // ---------------------------------------------------------------------------------------------
 // client side
 
-func writerOf(c Cred) runtime.ClientAuthInfoWriter {
+// the errors of the "failing" writers: one per list, so that an error coming back from the build names the list that was run
+var (
+	errOpWriter      = errors.New("c14: the operation's failing auth writer was invoked")
+	errDefaultWriter = errors.New("c14: the transport-wide default's failing auth writer was invoked")
+)
+
+func writerOf(c Cred, list string) runtime.ClientAuthInfoWriter {
 	switch c.Kind {
 	case "basic":
 		return client.BasicAuth(string(c.User), string(c.Pass))
@@ -156,26 +177,69 @@ func writerOf(c Cred) runtime.ClientAuthInfoWriter {
 		return client.BearerToken(string(c.Token))
 	case "apikey":
 		return client.APIKeyAuth(c.Name, c.In, string(c.Token))
+	case "failing":
+		err := errOpWriter
+		if list == "default" {
+			err = errDefaultWriter
+		}
+		return runtime.ClientAuthInfoWriterFunc(func(runtime.ClientRequest, strfmt.Registry) error { return err })
 	}
 	return nil
 }
 
-func writersOf(l []Cred, compose bool) runtime.ClientAuthInfoWriter {
+func writersOf(l []Cred, compose bool, list string) runtime.ClientAuthInfoWriter {
 	if len(l) == 0 {
 		return nil
 	}
 	if len(l) == 1 && !compose {
-		return writerOf(l[0])
+		return writerOf(l[0], list)
 	}
 	var ws []runtime.ClientAuthInfoWriter
 	for i, c := range l {
 		if i == 1 {
 			ws = append(ws, nil) // Compose documents that nil entries are skipped
 		}
-		ws = append(ws, writerOf(c))
+		ws = append(ws, writerOf(c, list))
 	}
 	return client.Compose(ws...)
 }
+
+// oddIn: an API-key writer whose location is not spelled exactly "header" / "query" on the CLIENT side (the server side
+// compares the location case-insensitively; what the client makes of "Header", "QUERY", "cookie" or "" is observed, see expect).
+func oddIn(w Cred) bool { return w.Kind == "apikey" && w.In != "header" && w.In != "query" }
+
+// inLoc is the location a spelling denotes when letter case is ignored ("" = none).
+func inLoc(in string) string {
+	switch strings.ToLower(in) {
+	case "header":
+		return "header"
+	case "query":
+		return "query"
+	}
+	return ""
+}
+
+// nilWriter observes whether the client's constructor hands back NO writer for an oddly spelled location.
+func nilWriter(w Cred) (isNil bool, panicked string) {
+	pv, st := mon.Catch(func() { isNil = client.APIKeyAuth(w.Name, w.In, string(w.Token)) == nil })
+	if pv != nil {
+		return false, fmt.Sprintf("%v\n%s", pv, st)
+	}
+	return isNil, ""
+}
+
+// listNil: the list is a single, uncomposed writer and the constructor returned nil for it: the field it is assigned to
+// (ClientOperation.AuthInfo / Runtime.DefaultAuthentication) then holds no writer at all.
+func listNil(l []Cred, compose bool) bool {
+	if len(l) != 1 || compose || !oddIn(l[0]) {
+		return false
+	}
+	n, _ := nilWriter(l[0])
+	return n
+}
+
+// opHasOwn: the operation carries an auth writer of its own (PassThroughAuth and an empty Compose count: they are writers).
+func opHasOwn(c *Case) bool { return c.HasOpAuth && !listNil(c.OpAuth, c.OpCompose) }
 
 func presetValue(p *Cred) string {
 	switch p.Kind {
@@ -189,7 +253,10 @@ func presetValue(p *Cred) string {
 
 func buildOperation(c *Case, host string) (*client.Runtime, *runtime.ClientOperation) {
 	rt := client.New(host, "/v1"+staticQuery(c.BaseQuery), []string{"http"})
-	rt.DefaultAuthentication = writersOf(c.Default, c.DefaultCompose)
+	rt.DefaultAuthentication = writersOf(c.Default, c.DefaultCompose, "default")
+	if c.CTSpell != "" && c.CTVia == "transport" {
+		rt.Transport = respeller{c: c, next: http.DefaultTransport}
+	}
 	op := &runtime.ClientOperation{
 		ID:                 "op",
 		Method:             c.Method,
@@ -203,6 +270,13 @@ func buildOperation(c *Case, host string) (*client.Runtime, *runtime.ClientOpera
 	switch c.FormKind {
 	case "urlencoded":
 		op.ConsumesMediaTypes = []string{runtime.URLencodedFormMime}
+		if c.CTSpell != "" && c.CTVia == "consumes" {
+			// the consumes entry of the operation is spelled that way; the transport writes forms itself, the producer
+			// registered under the spelling only makes the media type known to it
+			spelled := respell(c, runtime.URLencodedFormMime)
+			op.ConsumesMediaTypes = []string{spelled}
+			rt.Producers[spelled] = runtime.DiscardProducer
+		}
 	case "multipart":
 		op.ConsumesMediaTypes = []string{runtime.MultipartFormMime}
 	default:
@@ -240,10 +314,13 @@ func buildOperation(c *Case, host string) (*client.Runtime, *runtime.ClientOpera
 		return nil
 	})
 	if c.HasOpAuth {
-		if len(c.OpAuth) == 0 {
+		switch {
+		case len(c.OpAuth) == 0 && c.OpCompose:
+			op.AuthInfo = client.Compose(nil) // a writer of its own that writes nothing
+		case len(c.OpAuth) == 0:
 			op.AuthInfo = client.PassThroughAuth
-		} else {
-			op.AuthInfo = writersOf(c.OpAuth, c.OpCompose)
+		default:
+			op.AuthInfo = writersOf(c.OpAuth, c.OpCompose, "op")
 		}
 	}
 	return rt, op
@@ -266,6 +343,13 @@ type expectation struct {
 
 	defaultEffective bool
 	placements       []string
+
+	// oddly spelled client-side locations among the effective writers (see oddIn)
+	dropped   []string        // spellings for which the constructor returned NO writer: nothing of that key travels
+	skipNames map[string]bool // lower-cased key names whose writer exists although the spelling denotes no location: not judged
+	ctorPanic string
+	// a writer that returns an error is part of the effective list: whether a request is built at all is not judged
+	failingEffective bool
 }
 
 type keyExp struct {
@@ -274,13 +358,14 @@ type keyExp struct {
 }
 
 func expect(c *Case) *expectation {
-	e := &expectation{hdrKeys: map[string]keyExp{}, qryKeys: map[string]keyExp{}}
+	e := &expectation{hdrKeys: map[string]keyExp{}, qryKeys: map[string]keyExp{}, skipNames: map[string]bool{}}
 	var effective []Cred
 	src := ""
+	// "the operation has none of its own": a field that holds no writer at all (the constructor returned nil) is none
 	switch {
-	case c.HasOpAuth:
+	case opHasOwn(c):
 		effective, src = c.OpAuth, "op"
-	case len(c.Default) > 0 && c.Preset == nil:
+	case len(c.Default) > 0 && !listNil(c.Default, c.DefaultCompose) && c.Preset == nil:
 		effective, src = c.Default, "default"
 		e.defaultEffective = true
 	}
@@ -291,8 +376,30 @@ func expect(c *Case) *expectation {
 		switch w.Kind {
 		case "basic", "bearer":
 			authz, authzSrc = &effective[i], src
+		case "failing":
+			e.failingEffective = true
 		case "apikey":
-			if w.In == "header" {
+			loc := w.In
+			if oddIn(w) {
+				// The statement speaks of the client's API-key writers "(header or query)". Whether a writer exists for
+				// another spelling is observed, not demanded: no writer = nothing of the key is attached (and nothing is
+				// owed to its probes); a writer for a spelling that denotes a location when case is ignored owes the key
+				// there; a writer for anything else is outside the statement (its key name is not judged).
+				isNil, pan := nilWriter(w)
+				switch {
+				case pan != "":
+					e.ctorPanic = pan
+					continue
+				case isNil:
+					e.dropped = append(e.dropped, w.In)
+					continue
+				case inLoc(w.In) == "":
+					e.skipNames[strings.ToLower(w.Name)] = true
+					continue
+				}
+				loc = inLoc(w.In)
+			}
+			if loc == "header" {
 				e.hdrKeys[strings.ToLower(w.Name)] = keyExp{string(w.Token), src}
 			} else {
 				e.qryKeys[w.Name] = keyExp{string(w.Token), src}
@@ -321,6 +428,11 @@ func expect(c *Case) *expectation {
 		e.placements = append(e.placements, "F:"+c.FormKind)
 		if !e.bearer && (c.Method == "POST" || c.Method == "PUT" || c.Method == "PATCH") {
 			e.bearer, e.token, e.bearerSrc = true, string(c.FormTok), "form:"+c.FormKind
+			if c.CTSpell != "" {
+				// the same media type in another valid spelling: the form is still a form (RFC 7231 3.1.1.1: type, subtype
+				// and parameter names are case-insensitive, parameters and blanks around ';' are allowed)
+				e.bearerSrc += "+content-type-" + c.CTSpell + "-via-" + c.CTVia
+			}
 		}
 	}
 	return e
@@ -576,11 +688,12 @@ func probeAll(c *Case, fresh func() (*http.Request, error)) ([]observation, erro
 // loopback server (thorough tier and replays of TCP cases)
 
 var (
-	srvOnce sync.Once
-	srv     *httptest.Server
-	srvMu   sync.Mutex
-	srvCase *Case
-	srvSeen []hit // one entry per request the handler received for srvCase
+	srvStart    sync.Mutex // guards srv and srvFailures
+	srv         *httptest.Server
+	srvFailures int
+	srvMu       sync.Mutex
+	srvCase     *Case
+	srvSeen     []hit // one entry per request the handler received for srvCase
 )
 
 // hit is what the loopback server saw of one received request.
@@ -589,9 +702,23 @@ type hit struct {
 	err error
 }
 
+// server returns the shared loopback server, or nil when no listener could be had (a few retries per attempt, tried again by
+// the next loopback cases, five times per worker): a machine without a free port or loopback address right now is a condition
+// of the harness, never an observation about the library (httptest.NewServer would panic and take the worker down).
 func server() *httptest.Server {
-	srvOnce.Do(func() {
-		srv = httptest.NewServer(http.HandlerFunc(func(w http.ResponseWriter, r *http.Request) {
+	srvStart.Lock()
+	defer srvStart.Unlock()
+	if srv != nil || srvFailures >= 5 {
+		return srv
+	}
+	func() {
+		l, err := listenLoopback()
+		if err != nil {
+			srvFailures++
+			srvListenErr = err
+			return
+		}
+		srv = &httptest.Server{Listener: l, Config: &http.Server{Handler: http.HandlerFunc(func(w http.ResponseWriter, r *http.Request) {
 			body, rerr := io.ReadAll(r.Body)
 			srvMu.Lock()
 			c := srvCase
@@ -614,8 +741,9 @@ func server() *httptest.Server {
 			w.Header().Set("Content-Type", runtime.JSONMime)
 			w.WriteHeader(http.StatusOK)
 			_, _ = w.Write([]byte("{}"))
-		}))
-	})
+		})}}
+		srv.Start()
+	}()
 	return srv
 }
 
@@ -664,6 +792,7 @@ type tcpResult struct {
 }
 
 func submitTCP(c *Case) (res tcpResult) {
+	// runCase made sure that the server exists before the first Submit of a case
 	rt, op := buildOperation(c, strings.TrimPrefix(server().URL, "http://"))
 	srvMu.Lock()
 	srvCase, srvSeen = c, nil
@@ -710,6 +839,10 @@ func runCase(m *mon.M, c *Case) {
 	}
 	c = x // the working copy; rep(c) is the recorded form
 	e := expect(c)
+	if e.ctorPanic != "" {
+		m.Violate("client-panic/apikey-writer-constructor", "client.APIKeyAuth panicked: "+e.ctorPanic, rep(c))
+		return
+	}
 
 	var obs []observation
 	var all [][]observation
@@ -722,9 +855,15 @@ func runCase(m *mon.M, c *Case) {
 			m.Violate("client-panic", fmt.Sprintf("CreateHttpRequest panicked: %v\n%s", pv, st), rep(c))
 			return
 		}
+		if failingVerdict(m, c, e, err) {
+			return
+		}
 		if err != nil {
 			m.Violate("client-build-error", "CreateHttpRequest failed: "+err.Error(), rep(c))
 			return
+		}
+		if c.CTSpell != "" && c.CTVia == "transport" {
+			req = respellRequest(c, req) // what the transport's RoundTripper does on the way out (TCP cases: respeller.RoundTrip)
 		}
 		var buf bytes.Buffer
 		if err := req.Write(&buf); err != nil {
@@ -740,9 +879,17 @@ func runCase(m *mon.M, c *Case) {
 			return
 		}
 	} else {
+		if server() == nil {
+			// no loopback listener could be had (after retries): a condition of the machine, nothing was observed
+			noListener(m)
+			return
+		}
 		res := submitTCP(c)
 		if res.pv != nil {
 			m.Violate("client-panic", fmt.Sprintf("Submit panicked: %v\n%s", res.pv, res.st), rep(c))
+			return
+		}
+		if failingVerdict(m, c, e, res.err) {
 			return
 		}
 		if res.err != nil && (strings.Contains(res.err.Error(), "invalid header") || strings.Contains(res.err.Error(), "invalid URL")) {
@@ -790,6 +937,10 @@ func runCase(m *mon.M, c *Case) {
 		all = [][]observation{obs}
 	}
 	m.Class("channel/" + channel(c))
+	if c.CTSpell != "" {
+		m.Class("form-content-type/" + c.FormKind + "/" + c.CTSpell + "-via-" + c.CTVia)
+	}
+	classOddIn(m, c, e)
 	for _, st := range rep(c).Stretch {
 		m.Class("long-credential/" + channel(c) + "/" + sizeClass(st.Len))
 	}
@@ -883,7 +1034,7 @@ func leakedDefault(c *Case, p probe, a, b string) bool {
 			return true
 		case p.kind == "bearer" && w.Kind == "bearer" && string(w.Token) == a:
 			return true
-		case p.kind == "apikey" && w.Kind == "apikey" && w.In == p.in && string(w.Token) == a:
+		case p.kind == "apikey" && w.Kind == "apikey" && inLoc(w.In) == p.in && string(w.Token) == a:
 			return true
 		}
 	}
@@ -891,7 +1042,7 @@ func leakedDefault(c *Case, p probe, a, b string) bool {
 }
 
 func whyDefaultIdle(c *Case) string {
-	if c.HasOpAuth {
+	if opHasOwn(c) {
 		return "despite-operation-auth"
 	}
 	if c.Preset != nil {
@@ -942,6 +1093,10 @@ func judge(m *mon.M, c *Case, e *expectation, o *observation) {
 	case "bearer":
 		owed, wa, src = e.bearer, e.token, e.bearerSrc
 	case "apikey":
+		if e.skipNames[strings.ToLower(o.p.name)] { // header names match case-insensitively: every probe of a like-named key is left out
+			m.Class("verdict/" + lab + "/writer-for-a-spelling-that-denotes-no-location(not judged)")
+			return
+		}
 		var k keyExp
 		var ok bool
 		if o.p.in == "header" {
@@ -1098,6 +1253,7 @@ var (
 	hdrNames   = []string{"X-API-Key", "x-api-key", "X-Api-KEY", "API_KEY", "apikey", "X-Auth.Token", "x-TOKEN", "Api-Key-2", "X-Default-Key", "private-token"}
 	qryNames   = []string{"api_key", "apiKey", "APIKEY", "key", "k.e-y", "tok en", "a&b", "\xd0\xba\xd0\xbb\xd1\x8e\xd1\x87", "sig", "Api_Key"}
 	foreignHdr = []string{"Digest username=\"x\", response=\"y\"", "Token abc", "Negotiate YIIZ=", "AWS4-HMAC-SHA256 Credential=x", "Bearer", "Basic", "BearerX tok", "Basically x", "bogus", "Bea"}
+	oddIns     = []string{"Header", "HEADER", "Query", "QUERY", "hEaDeR", "cookie", "", " header", "path"}
 	anyMethods = []string{"GET", "POST", "PUT", "PATCH", "DELETE", "HEAD", "OPTIONS"}
 	bodyMeths  = []string{"POST", "PUT", "PATCH"}
 	scopeSets  = [][]string{nil, {}, {"read"}, {"read", "write:all"}, {"a b", ""}, {"write", "read", "write"}, {"Zeta", "alpha", "Beta", "alpha"}, {"Read:All", " padded ", "b", "a"}}
@@ -1180,6 +1336,7 @@ func genWriters(r *rand.Rand, n int, used tokenSet) []Cred {
 	haveAuthz := false
 	hdrSeen := map[string]bool{}
 	qrySeen := map[string]bool{}
+	haveFailing := false
 	for len(out) < n {
 		switch k := r.Intn(10); {
 		case k < 3 && !haveAuthz:
@@ -1194,7 +1351,22 @@ func genWriters(r *rand.Rand, n int, used tokenSet) []Cred {
 				continue
 			}
 			hdrSeen[strings.ToLower(nm)] = true
-			out = append(out, Cred{Kind: "apikey", In: "header", Name: nm, Token: mon.Q(used.fresh(r, headerToken))})
+			in := "header"
+			if r.Intn(12) == 0 {
+				// the location as a caller may spell it: the server side accepts any letter case, the client side is observed.
+				// The name is taken out of the query pool as well, the value is header-safe: whatever location a writer picks
+				// for the spelling, the key can travel there and collides with no other key of the list.
+				in = oddIns[r.Intn(len(oddIns))]
+				if qrySeen[nm] {
+					continue
+				}
+				qrySeen[nm] = true
+			}
+			out = append(out, Cred{Kind: "apikey", In: in, Name: nm, Token: mon.Q(used.fresh(r, headerToken))})
+		case k < 9 && r.Intn(25) == 0 && !haveFailing:
+			// a writer that returns an error (an expired token source, say), alone or as a member of a Compose
+			haveFailing = true
+			out = append(out, Cred{Kind: "failing"})
 		default:
 			nm := qryNames[r.Intn(len(qryNames))]
 			if qrySeen[nm] {
@@ -1223,7 +1395,8 @@ func genCase(r *rand.Rand) *Case {
 		c.OpAuth = genWriters(r, 1+r.Intn(3), used)
 		c.OpCompose = r.Intn(3) == 0
 	case k < 11:
-		c.HasOpAuth = true // PassThroughAuth
+		c.HasOpAuth = true           // PassThroughAuth ...
+		c.OpCompose = r.Intn(3) == 0 // ... or a Compose of nothing but a nil entry
 	}
 	if r.Intn(10) < 3 {
 		switch k := r.Intn(10); {
@@ -1251,6 +1424,9 @@ func genCase(r *rand.Rand) *Case {
 	case c.FormKind != "":
 		c.FormTok = mon.Q(used.fresh(r, anyToken))
 		c.Method = bodyMeths[r.Intn(len(bodyMeths))]
+		if r.Intn(5) < 2 {
+			addCTSpelling(r, c)
+		}
 	case c.JSONBody:
 		c.Method = bodyMeths[r.Intn(len(bodyMeths))]
 	default:
@@ -1302,7 +1478,7 @@ var (
 func effectiveQueryKeys(c *Case) []string {
 	var l []Cred
 	switch {
-	case c.HasOpAuth:
+	case opHasOwn(c):
 		l = c.OpAuth
 	case c.Preset == nil:
 		l = c.Default
@@ -1337,6 +1513,7 @@ func addStatic(r *rand.Rand, c *Case) {
 }
 
 func run(m *mon.M) {
+	runExtras(m)
 	r := m.Rand("cases")
 	for i := 0; i < m.N(200, 3000); i++ {
 		pool := []string{"bearer:tok-A", "bearer:tok-B", "basic:alice:s3cr:et", "key:k-1", "none", "bearer:tok-C", "basic:bob:pw"}
@@ -1365,6 +1542,10 @@ func run(m *mon.M) {
 }
 
 func replay(m *mon.M, raw json.RawMessage) {
+	inReplay = true
+	if replayExtra(m, raw) {
+		return
+	}
 	var rc Reassign
 	if err := json.Unmarshal(raw, &rc); err == nil && rc.Kind == "default-auth-reassigned" {
 		runReassign(m, &rc)
